@@ -1,0 +1,97 @@
+//go:build verif
+
+// Contracts for package security (comment-only; compiled only with the build tag "verif",
+// read by /verif/engine). Property C17 (TLS client authentication).
+
+package security
+
+//@ import tls "crypto/tls"
+//@ import x509 "crypto/x509"
+//@ import zap "go.uber.org/zap"
+
+// file loading and PEM parsing are not under contract (ASSUMED frames)
+//@ func NewCert
+//@   assumed
+//@   modifies nothing
+//@ func NewCertPool
+//@   assumed
+//@   results pool, err
+//@   ensures err == nil ==> pool != nil
+//@   modifies nothing
+//@ func zap.NewNop
+//@   assumed
+//@   ensures result != nil
+//@   modifies nothing
+//@ func zap.(*Logger).Sugar
+//@   assumed
+//@   ensures result != nil
+//@   modifies nothing
+//@ func (TLSInfo).String
+//@   assumed
+//@   modifies nothing
+//@ func (TLSInfo).cafiles
+//@   ensures len(result) == (t.TrustedCAFile != "" ? 1 : 0)
+//@   modifies nothing
+
+// x509's hostname check as an uninterpreted predicate of (certificate, hostname)
+//@ uninterp func hostOK(c *x509.Certificate, h string) bool
+//@ func x509.(*Certificate).VerifyHostname
+//@   assumed
+//@   params c, h
+//@   ensures (result == nil) == hostOK(c, h)
+//@   modifies nothing
+
+// exact match on the common name
+//@ func (TLSInfo).baseConfig$1
+//@   requires cert != nil
+//@   ensures [C17.tls.cn] (result == nil) == ((*t).AllowedCN == cert.Subject.CommonName)
+//@   modifies nothing
+// validity for the configured hostname
+//@ func (TLSInfo).baseConfig$2
+//@   requires cert != nil
+//@   ensures [C17.tls.host] (result == nil) == hostOK(cert, (*t).AllowedHostname)
+//@   modifies nothing
+
+// the verdict of the configured per-certificate check, as a function of (check, certificate)
+//@ uninterp func verdict(f Ref, c *x509.Certificate) error
+//@ func verifyContract
+//@   assumed
+//@   params cert
+//@   ensures result == verdict(self, cert)
+//@   modifies nothing
+
+// VerifyPeerCertificate: the verdict on the leaf of the first non-empty verified chain; no verified
+// chain at all is a failure
+//@ func (TLSInfo).baseConfig$3
+//@   functype verifyCertificate verifyContract
+//@   requires *verifyCertificate != nil && forall i int, j int :: 0 <= i && i < len(verifiedChains) && 0 <= j && j < len(verifiedChains[i]) ==> verifiedChains[i][j] != nil
+//@   ensures [C17.tls.peer.none] (forall i int :: 0 <= i && i < len(verifiedChains) ==> len(verifiedChains[i]) == 0) ==> result != nil
+//@   ensures [C17.tls.peer.leaf] forall i int :: 0 <= i && i < len(verifiedChains) && len(verifiedChains[i]) != 0 && (forall k int :: 0 <= k && k < i ==> len(verifiedChains[k]) == 0) ==> result == verdict(*verifyCertificate, verifiedChains[i][0])
+//@   modifies nothing
+//@   loop 0 invariant -1 <= rangeindex && rangeindex < len(verifiedChains)
+//@   loop 0 invariant forall k int :: 0 <= k && k <= rangeindex ==> len(verifiedChains[k]) == 0
+
+//@ func (TLSInfo).baseConfig$4
+//@   assumed
+//@   modifies nothing
+//@ func (TLSInfo).baseConfig$5
+//@   assumed
+//@   modifies nothing
+
+// baseConfig: TLS 1.2 at least; whenever a common name or hostname is required, a peer-certificate
+// verification function is installed
+//@ func (TLSInfo).baseConfig
+//@   results cfg, err
+//@   ensures err == nil ==> cfg != nil && fresh(cfg) && cfg.MinVersion == 771
+//@   ensures [C17.tls.verify] err == nil && (t.AllowedCN != "" || t.AllowedHostname != "") ==> cfg.VerifyPeerCertificate != nil
+//@   modifies nothing
+
+// ServerConfig: a trusted CA (or the explicit switch) makes the server require and verify a client
+// certificate against a pool loaded from that CA file, and the CN/hostname check stays installed
+//@ func (TLSInfo).ServerConfig
+//@   results cfg, err
+//@   ensures [C17.tls.clientauth] err == nil && (t.TrustedCAFile != "" || t.ClientCertAuth) ==> cfg.ClientAuth == 4
+//@   ensures [C17.tls.cas] err == nil && t.TrustedCAFile != "" ==> cfg.ClientCAs != nil
+//@   ensures [C17.tls.verify] err == nil && (t.AllowedCN != "" || t.AllowedHostname != "") ==> cfg.VerifyPeerCertificate != nil
+//@   ensures err == nil ==> cfg != nil && cfg.MinVersion == 771
+//@   modifies nothing
